@@ -1,4 +1,5 @@
 """C09 - any schema-valid MusicXML file is read without loss; nothing is silently dropped."""
+import copy
 import glob
 import os
 import tempfile
@@ -47,7 +48,7 @@ def draw_doc(data, el, depth, flags, budget, inside):
             if a['required']:
                 return None
             continue
-        if a['required'] or (budget[0] > 0 and data.draw(st.integers(0, 5)) == 0):
+        if a['required'] or (budget[0] > 0 and data.draw(st.integers(0, 1 if (special and inside) else 5)) == 0):
             txt = a['fixed'] or data.draw(st.sampled_from(lexical.valid_texts(a['type'])))
             if not lexical.valid(a['type'], txt, strict=True):
                 continue
@@ -221,7 +222,9 @@ def mutate(data, root):
         parents[n].remove(n)
     elif kind == 'duplicate':
         p = parents[n]
-        p.insert(list(p).index(n), ET.fromstring(ET.tostring(n)))
+        dup = copy.deepcopy(n)
+        dup.tail = None
+        p.insert(list(p).index(n), dup)
     elif kind == 'move':
         p = parents[n]
         p.remove(n)
@@ -340,7 +343,7 @@ def run_shard(ctx, shard, acc):
         return
     if shard['mode'] == 'valid':
         def body(data):
-            inside = data.draw(st.integers(0, 6)) == 0
+            inside = data.draw(st.integers(0, 5)) == 0
             pool = names if inside else outside
             el = data.draw(st.sampled_from(c08.ROOTS)) if (not inside and data.draw(st.integers(0, 2)) > 0) \
                 else data.draw(st.sampled_from(pool))
@@ -357,7 +360,7 @@ def run_shard(ctx, shard, acc):
             f = check_valid(plan, variant)
             if f:
                 acc.fail(f)
-        hyp_search(acc, body, mix(ctx.seed, 'C09v', shard['index']), ctx.budget(250, 6000))
+        hyp_search(acc, body, mix(ctx.seed, 'C09v', shard['index']), ctx.budget(900, 6000))
         return
 
     def body(data):
@@ -377,4 +380,4 @@ def run_shard(ctx, shard, acc):
         acc.count('mutation-' + label.split('+')[0])
         if f:
             acc.fail(f)
-    hyp_search(acc, body, mix(ctx.seed, 'C09m', shard['index']), ctx.budget(500, 14000))
+    hyp_search(acc, body, mix(ctx.seed, 'C09m', shard['index']), ctx.budget(1500, 14000))
